@@ -26,9 +26,24 @@ def read(relpath):
         raise ExtractError("cannot read %s: %s" % (p, e))
 
 
-def mask(text):
+def mask(text, keep_strings=False):
     """Return text with comments and string/char literal *contents* replaced by
     spaces (same length), so that structural scanning ignores them."""
+    if keep_strings:
+        m = mask(text)
+        out = list(m)
+        i, n = 0, len(text)
+        while i < n:
+            if m[i] in '"\'':
+                q = m[i]
+                j = m.find(q, i + 1)
+                if j < 0:
+                    break
+                out[i:j + 1] = list(text[i:j + 1])
+                i = j + 1
+            else:
+                i += 1
+        return ''.join(out)
     out = list(text)
     i, n = 0, len(text)
     while i < n:
@@ -123,7 +138,7 @@ class Located:
         return "%s:%d-%d" % (self.relpath, self.line0, self.line1)
 
 
-def locate_function(relpath, sig_regex, which=None):
+def locate_function(relpath, sig_regex, which=None, within=None):
     """Locate a function definition whose signature matches sig_regex (searched
     with re.M on the comment-masked file).  The match must be followed (after an
     optional const/noexcept/initialiser-free gap) by '{'.  Exactly one definition
@@ -140,6 +155,9 @@ def locate_function(relpath, sig_regex, which=None):
             continue  # declaration only
         end = match_brace(full, j, m)
         hits.append((mo.start(), j, end))
+    if within is not None:
+        enc = locate_function(relpath, within)
+        hits = [h for h in hits if enc.start < h[0] and h[2] < enc.end]
     if which is not None:
         if which >= len(hits):
             raise ExtractError("%s: signature /%s/ has %d definitions, wanted #%d" % (relpath, sig_regex, len(hits), which))
@@ -156,7 +174,7 @@ def locate_region(relpath, func_sig_regex, start_regex, end_regex, include_end=T
     f = locate_function(relpath, func_sig_regex, which)
     full = read(relpath)
     body = f.text
-    mb = mask(body)
+    mb = mask(body, keep_strings=True)
     ms = list(re.finditer(start_regex, mb, re.M))
     if len(ms) != 1:
         raise ExtractError("%s: region start /%s/ matched %d times in function" % (relpath, start_regex, len(ms)))
